@@ -342,7 +342,12 @@ func (e *Engine) Apply(op Op) error {
 		return nil
 	}
 	s := e.slots[op.T]
-	op.K = s.kind.Canon(op.K)
+	if _, raw := s.kind.(*rawCmpKind); raw && (op.Op == "search" || op.Op == "delete") && len(op.K) > 0 && bytes.IndexByte(op.K, 0) < 0 && strings.Contains(op.Note, "unterminated") {
+		// an unterminated probe is not a key of this codec, hence absent; it is passed as it is
+		// (partial-path probes, re-slices of stored keys)
+	} else {
+		op.K = s.kind.Canon(op.K)
+	}
 	if op.K2 != nil {
 		op.K2 = s.kind.Canon(op.K2)
 	}
@@ -1133,7 +1138,7 @@ func (e *Engine) doIterAudit(s *slot, op Op) error {
 	es := s.model.Sorted()
 	n := len(es)
 	for _, m := range []string{"all", "backward", "topk", "bottomk", "prefix", "range"} {
-		o := Op{T: op.T, Op: "iter", M: m, Stop: n / 2, Re: 2, Btw: 3, In: []int{-1, 2}[n%2], N: uint64(n/2 + 1), Note: "audit"}
+		o := Op{T: op.T, Op: "iter", M: m, Stop: n / 2, Re: 2, Btw: 3, Pull: 0x2a5 + n, T2: op.T + 1, In: []int{-1, 2}[n%2], N: uint64(n/2 + 1), Note: "audit"}
 		switch m {
 		case "prefix":
 			if !s.kind.HasPrefix() || n == 0 {
